@@ -300,6 +300,18 @@ cleanup:
  *
  */
 int KSI_DataHash_fromImprint(KSI_CTX *ctx, const unsigned char *imprint, size_t imprint_length, KSI_DataHash **hash) {
+	KSI_ERR_clearErrors(ctx);
+	if (imprint == NULL || hash == NULL) {
+		KSI_pushError(ctx, KSI_INVALID_ARGUMENT, NULL);
+		return KSI_INVALID_ARGUMENT;
+	}
+
+	/* An imprint holds at least the algorithm id. */
+	if (imprint_length == 0) {
+		KSI_pushError(ctx, KSI_INVALID_FORMAT, "Empty imprint.");
+		return KSI_INVALID_FORMAT;
+	}
+
 	return KSI_DataHash_fromDigest(ctx, *imprint, imprint + 1, imprint_length - 1, hash);
 }
 
